@@ -247,11 +247,14 @@ RecOutcome(before, now, std, file, rv) ==
 \* sf: struct kept by the job (stale); called with the post-operation fs in e.
 RecordRow(w, e, t, sf, rv) ==
     LET new == CurStamp(e.fs, t)
-        row == IF rv = 0 THEN
-                   LET r0 == [Load(w, e, t) EXCEPT !.gen = TRUE, !.ovr = FALSE] IN   \* refresh
-                   IF IsCheckedRow(r0, e.rid) \/ IsChangedRow(r0, e.rid)
-                   THEN [r0 EXCEPT !.stamp = new]
-                   ELSE SetChanged(UpdateStamp([r0 EXCEPT !.csum = NoVal], new, e.rid), e.rid)
+        r0  == [Load(w, e, t) EXCEPT !.gen = TRUE, !.ovr = FALSE]    \* refresh
+        ok  == IF IsCheckedRow(r0, e.rid) \/ IsChangedRow(r0, e.rid)
+               THEN [r0 EXCEPT !.stamp = new]
+               ELSE SetChanged(UpdateStamp([r0 EXCEPT !.csum = NoVal], new, e.rid), e.rid)
+        row == IF rv = 0 THEN ok
+               \* 209: the failure arose inside the success branch (stdout could not be copied, rename failed): the
+               \* refreshed row has been treated like a success before set_failed is applied to it
+               ELSE IF rv = 209 THEN SetFailed(ok, new, e.rid)
                ELSE SetFailed(sf, new, e.rid)
     IN Save(Zap2(w, t), t, row)
 
